@@ -1083,6 +1083,10 @@ class CallMixin:
         a, b = self.unify(a, b, node)
         return mk_bool(a.t == b.t)
 
+    def spec_is_numeral(self, node):
+        (v,) = self.args_of(node)
+        return mk_bool(z3.InRe(v.t, z3.Plus(z3.Range("0", "9"))))
+
     def spec_clock(self, node):
         return SV(TReal, self.ctx.ghost["clock"])
 
@@ -1169,7 +1173,7 @@ _EMPTY_SET = _EmptyS()
 
 SPEC_FORMS = {
     "forall", "exists", "implies", "iff", "ite", "old", "asc", "desc", "distinct", "elems", "dom", "card",
-    "subset", "empty_set", "is_none", "some", "clock", "raised", "ghost", "get", "int_of", "str_of", "lpre", "pos", "eq_ci", "local", "list_of", "single", "same",
+    "subset", "empty_set", "is_none", "some", "clock", "raised", "ghost", "get", "int_of", "str_of", "lpre", "pos", "eq_ci", "local", "list_of", "single", "same", "is_numeral",
 }
 
 import itertools
